@@ -39,10 +39,10 @@ def extract(cap):
 def cfg_text(k, c, export, invariants, spec="Spec", props=()):
     b = lambda x: "TRUE" if x else "FALSE"
     th = "{" + ",".join('"%s"' % t for t in c["threads"]) + "}"
-    return ("SPECIFICATION %s\nCONSTANTS Threads = %s\n NStmt = %d\n NFlush = %d\n Sizes = {%s}\n FlushSz = %d\n Bounded = %s\n"
+    return ("SPECIFICATION %s\nCONSTANTS Threads = %s\n NStmt = %d\n NFlush = %d\n Sizes = {%s}\n FlushSz = %d\n RmSz = %d\n Bounded = %s\n"
             " Dropping = %s\n Cap = %d\n Batch = %d\n PublishWhenDrained = %s\n Soft = %d\n Hard = %d\n Grace = %d\n MaxTime = %d\n"
             " AllowExit = %s\n ReportOnRemove = %s\n Loggers = {%s}\n AllowRemove = %s\n RecheckOnRemove = %s\n Export = %s\n%s%s%s%sCHECK_DEADLOCK FALSE\n"
-            % (spec, th, c["nstmt"], c["nflush"], ",".join(map(str, c["sizes"])), FLUSH_SZ, b(c["bounded"]), b(c["dropping"]),
+            % (spec, th, c["nstmt"], c["nflush"], ",".join(map(str, c["sizes"])), FLUSH_SZ, FLUSH_SZ + 4 + 2, b(c["bounded"]), b(c["dropping"]),
                c["cap"], k["Batch"], b(k["PublishWhenDrained"]), c["soft"], c["hard"], c["grace"], c["maxtime"], b(c["exit"]),
                b(k["ReportOnRemove"]), ",".join('"%s"' % l for l in c.get("loggers", ["L0"])), b(c.get("remove", False)),
                b(k.get("RecheckOnRemove", True)), b(export),
@@ -51,7 +51,7 @@ def cfg_text(k, c, export, invariants, spec="Spec", props=()):
                "VIEW StateView\n" if spec == "Spec" else "", "ACTION_CONSTRAINT ExportA\n" if export else ""))
 
 
-ACTIONS = ["RemoveLogger", "LogStart", "Enqueue", "FlushStart", "FlushCheck", "ThreadExit", "BStart", "BRead", "BProc", "BAfterPop", "BBatchIter",
+ACTIONS = ["RemoveLogger", "RemoveBlockingStart", "RemoveBlockingCheck", "LogStart", "Enqueue", "FlushStart", "FlushCheck", "ThreadExit", "BStart", "BRead", "BProc", "BAfterPop", "BBatchIter",
            "BIdle0", "BIdle1", "BIdle2", "BIdle3"]
 
 
@@ -85,6 +85,10 @@ def script_of(beh, c):
             L.append("tick 1")
         elif act == "remove":
             L.append(f"remove {h['arg'][0]}")
+        elif act == "rmbstart":
+            L.append(f"T {who} removeb {h['arg'][0]}")
+        elif act == "rmbcheck":
+            L.append(f"T {who} go")
         elif act == "idle3":
             L.append("B go")
             L.append("q loggers")
@@ -252,7 +256,8 @@ CONFIGS = {
     "C09": {"quick": [("one-thread", dict(threads=["t1"], nstmt=3, sizes=[40, 100, 256], exit=False))],
             "thorough": [("one-thread", dict(threads=["t1"], nstmt=4, sizes=[40, 100, 256], exit=False)),
                          ("two-threads", dict(nstmt=2, sizes=[40, 256], exit=False))]},
-    "C17": {"quick": [("remove", dict(nstmt=1, sizes=[96], exit=False, loggers=["L0", "L1"], remove=True))],
+    "C17": {"quick": [("remove", dict(nstmt=1, sizes=[96], exit=False, loggers=["L0", "L1"], remove=True, threads=["t1"])),
+                      ("remove-2thr", dict(nstmt=1, sizes=[200], exit=False, loggers=["L0"], remove=True))],
             "thorough": [("remove-2stmt", dict(nstmt=2, sizes=[96], exit=False, loggers=["L0", "L1"], remove=True, threads=["t1"])),
                          ("remove-exit", dict(nstmt=1, sizes=[96], exit=True, loggers=["L0", "L1"], remove=True)),
                          ("remove-soft2", dict(nstmt=1, sizes=[96], exit=False, loggers=["L0", "L1"], remove=True, soft=2))]},
@@ -287,7 +292,7 @@ def run_for(ck, prop):
                 raise vlib.Infra(rc.error)
             if rc.violated is None:
                 need = [a for a in ACTIONS if not (a in ("FlushStart", "FlushCheck") and c["nflush"] == 0)
-                        and not (a == "RemoveLogger" and not c.get("remove"))
+                        and not (a in ("RemoveLogger", "RemoveBlockingStart", "RemoveBlockingCheck") and not c.get("remove"))
                         and not (a == "ThreadExit" and not c["exit"]) and not (a == "BBatchIter" and c["soft"] < 2 and False)]
                 for a in need:
                     if not vlib.enabled(rc, a) and a != "BBatchIter":
